@@ -10,7 +10,7 @@ ROOT = os.path.dirname(os.path.dirname(os.path.abspath(__file__)))
 EVIDENCE_DIR = os.path.join(ROOT, "evidence")
 REPLAY_DIR = os.path.join(ROOT, "replays")
 FINDINGS = os.path.join(ROOT, "known_findings.json")
-REPO = os.environ.get("KAIRA_REPO", "/repo")
+REPO = os.environ.get("KV_REPO") or "/repo"     # KV_REPO: a scratch worktree with a seeded change (tools/try_seed_wt.sh); registered commands never set it
 
 
 def use_repo():
@@ -194,6 +194,8 @@ class Run:
         if self.exhaustive is not None:
             cov["exhaustive"] = bool(self.exhaustive)
         cov.update(self.extra)
+        if os.environ.get("KV_REPO"):
+            return  # a run against a scratch worktree never rewrites the evidence of the registered check
         ev = {"property_id": self.prop, "tier": self.tier, "seed": self.seed, "level": self.level,
               "coverage": cov, "assumptions": self.assumptions, "wall_s": round(time.time() - self.t0, 2),
               "violations": nviol}
